@@ -47,6 +47,16 @@ Step ==
             IF AlignmentNeutralClaimed(Rec.outer, Rec.ntop)
             THEN Stat("equal-claimed") /\ Clause("aligned-intensity-equals-unaligned", Rec.nan = 0 /\ Rec.reldiff_q <= Tol, <<Rec.alignment, Rec.reldiff_q, Rec.nan>>)
             ELSE Stat("equal-not-claimed")
+       [] Rec.kind = "dpdformula" ->
+            \* the DPD-aligned amplitude is the rotation of the per-topology amplitudes by the angles zeta^i_{k(ref)}
+            \* (k the spectator of the topology):  A[l] = sum_k sum_l' A^k[l'] d^{j0}_{l0 l0'}(zeta^0) prod_i d^{ji}_{li' li}(zeta^i).
+            \* Judged for reactions with several topologies - there C04 requires that the selected alignment makes the
+            \* intensity rotation invariant - and only while the intensity of that
+            \* (reaction, alignment) pair is observed NOT to be invariant (Rec.variant = 1): an implementation that reaches
+            \* invariance by another formula is not contradicted by this clause.
+            IF Rec.ntop > 1 /\ Rec.variant = 1
+            THEN Stat("dpdformula-judged") /\ Clause("aligned-amplitude-is-the-dpd-rotation-of-the-topology-amplitudes", Rec.nan = 0 /\ Rec.reldiff_q <= Tol, <<Rec.alignment, Rec.reldiff_q, Rec.nan>>)
+            ELSE Stat("dpdformula-not-judged")
        [] Rec.kind = "relabel" ->
             \* relabel_edge_ids (every id shifted by one) commutes with formulate(): same intensity on the same events
             Stat("relabel") /\ Clause("relabelled-reaction-has-the-same-intensity", Rec.nan = 0 /\ Rec.reldiff_q <= Tol, <<Rec.reldiff_q, Rec.nan>>)
